@@ -34,6 +34,7 @@ def Ans.render : Ans → String
   | .none => "none"
 
 def Op.render : Op → String
+  | .via t op => "via," ++ t ++ "," ++ op.render
   | .seteuidStr s => "seteuid,s:" ++ s
   | .seteuidInt n => "seteuid,i:" ++ toString n
   | .exportUid t => "export," ++ t
@@ -134,8 +135,9 @@ def parseCo (s : String) : Option CoAns :=
   else if s.startsWith "t:" then (parsePath (s.drop 2).toString).map .tmpl
   else none
 
-def parseOp (s : String) : Option Op :=
+partial def parseOp (s : String) : Option Op :=
   match s.splitOn "," with
+  | "via" :: t :: rest => (parseOp (",".intercalate rest)).map (.via t)
   | ["seteuid", a] =>
     if a.startsWith "s:" then some (.seteuidStr (a.drop 2).toString)
     else if a.startsWith "i:" then (a.drop 2).toString.toInt?.map .seteuidInt
